@@ -8,6 +8,7 @@ import (
 	"os"
 	"path/filepath"
 	"runtime"
+	"sort"
 	"strings"
 	"sync"
 
@@ -421,9 +422,16 @@ func extractDefinitions(exprs []*lisp.LVal) []ExternalSymbol {
 		}
 	}
 
+	// Emit in sorted key order so that a workspace scan gives the same list on
+	// every run (consumers resolve duplicate names to the last entry).
+	keys := make([]string, 0, len(defs))
+	for key := range defs {
+		keys = append(keys, key)
+	}
+	sort.Strings(keys)
 	var result []ExternalSymbol
-	for _, sym := range defs {
-		result = append(result, *sym)
+	for _, key := range keys {
+		result = append(result, *defs[key])
 	}
 	return result
 }
